@@ -13,6 +13,7 @@ import (
 	"fmt"
 	"math/rand/v2"
 	"os"
+	"runtime"
 	"runtime/debug"
 	"sort"
 	"strings"
@@ -90,6 +91,17 @@ func (c *Case) Bubble(f func()) (panicText string) {
 				panicText = fmt.Sprint(r)
 				if !strings.HasPrefix(panicText, "deadlock:") {
 					panicText += "\n" + string(debug.Stack())
+				} else {
+					// list the goroutines of the bubble that are still blocked
+					buf := make([]byte, 4<<20)
+					buf = buf[:runtime.Stack(buf, true)]
+					n := 0
+					for _, g := range strings.Split(string(buf), "\n\n") {
+						if strings.Contains(g, "synctest bubble") && !strings.Contains(g, "synctest.Run") && n < 12 {
+							panicText += "\n\n" + g
+							n++
+						}
+					}
 				}
 				returned = true
 			}
